@@ -27,6 +27,25 @@ fn main() {
         Some("c08san") => checks::c08::san_main(&args[1..]),
         Some("c06child") if args.len() >= 4 => checks::c06_kill::child_main(&args[1..]),
         Some("c06verify") if args.len() >= 3 => checks::c06_kill::verify_main(&args[1..]),
+        Some("dump") if args.len() >= 2 => {
+            // debugging aid: independent parse of a blob or index file
+            let p = std::path::Path::new(&args[1]);
+            let b = std::fs::read(p).unwrap_or_default();
+            if args[1].ends_with(".index") {
+                let ip = pv::parse::parse_index(&b);
+                println!("index len={} records={} blob_size={} hash_ok={} version_byte={} headers={}", ip.len, ip.records_count, ip.blob_size, ip.hash_ok, ip.version_byte, ip.headers.len());
+                for h in ip.headers.iter() {
+                    println!("  key={:02x?} ts={} off={} data={} meta={} flags={}", &h.key[..h.key.len().min(8)], h.ts, h.blob_offset, h.data_size, h.meta_size, h.flags);
+                }
+            } else {
+                let bp = pv::parse::parse_blob(&b);
+                println!("blob len={} header_ok={} parsed_end={} error={:?}", bp.len, bp.header_ok, bp.end, bp.error);
+                for r in bp.records.iter() {
+                    println!("  @{} key={:02x?} ts={} data={} meta={} flags={} off_field={} hdr_ok={} data_ok={}", r.pos, &r.key[..r.key.len().min(8)], r.ts, r.data_size, r.meta_size, r.flags, r.blob_offset, r.header_crc_ok, r.data_crc_ok);
+                }
+            }
+            0
+        }
         _ => usage(),
     };
     std::process::exit(code);
